@@ -456,120 +456,488 @@ def r11b(ctx):
               "max_order filter", "max_order filter changed", key="max order")
 
 
+def _tensor_provider(names):
+    """abstract intermediate class: ``tensor(...)`` hands out a tensor record and logs how it was requested"""
+    log = []
+
+    def tensor(sx, a, kw):
+        nm_ = names[len(log) % len(names)] if isinstance(names, (list, tuple)) else names
+        log.append((tuple(a), dict(kw)))
+        o = Obj(None, f"TENSOR{len(log) - 1}")
+        o.attrs.update(name=nm_)
+        return o
+    cls = Obj(None, "itmd_cls")
+    cls.attrs.update(tensor=tensor, name="t9_9")
+    return cls, log
+
+
 def r11c(ctx):
     rule = "R11c"
     fn = ctx.model.fn(FI + "_build_factored_term")
-    z = [r for r in common.returns_of(fn) if "Expr(0" in U(r.value)]
-    ok = len(z) == 1 and ("tensor.name == 'Zero'", True) in conditions(z[0])
-    ctx.check(rule, fn, ok, "zero only for the placeholder tensor named 'Zero'", "the factored term is replaced by 0 under another condition",
-              key="zero placeholder")
-    last = common.returns_of(fn)[-1]
-    ctx.check(rule, fn, sorted(U(f) for f in c13._flatten(last.value)) == ["pref", "remainder", "tensor"], "factored term = remainder * pref * tensor",
-              f"factored term `{U(last.value)}`", key="assembly")
-    t = [x for x in walk_fn(fn) if isinstance(x, ast.Assign) and U(x.targets[0]) == "tensor"]
-    ctx.check(rule, fn, len(t) == 1 and U(t[0].value) == "itmd_cls.tensor(indices=itmd_indices, return_sympy=True)",
-              "tensor of the factored intermediate on the found indices", "tensor construction changed", key="tensor")
-    reg = registry(ctx)
-    for name, info in reg.items():
-        builds_zero = info["tensor_name_literal"] == "Zero"
+    sx = Symex(ctx.model, inline=lambda q: True, what="_build_factored_term")
+    IDX = tuple(mk_index(x) for x in "ijab")
+    for name in ("Zero", "t2eri4", "t2eri_4", "Z", "Zeroo", "zero", "ZERO", "t1", "t2sq", "p2", "", sym("NAME")):
+        st = {}
+
+        def args():
+            st["cls"], st["log"] = _tensor_provider(name)
+            return dict(remainder=sym("REM"), pref=sym("PREF"), itmd_cls=st["cls"], itmd_indices=IDX)
+        outs = sx.run(fn, args)
+        for o in outs:
+            tag = show(name) if isinstance(name, T) else repr(name)
+            if o.kind != "return":
+                ctx.bad(rule, fn, f"_build_factored_term raises {o.exc} for a tensor named {tag}", key=f"raise {tag}")
+                continue
+            is_zero_name = name == "Zero" or (isinstance(name, T) and any(
+                pol and a == T("cmp", "==", *sorted(("Zero", name), key=repr)) for a, pol in o.path))
+            v = strip(o.value, calls=("Expr",))
+            if is_zero_name:
+                asm = [c for c in subterms(o.value) if c.op == "call" and c.args[0] == "Expr"]
+                ok = v == 0 and asm and any(x == T("attr", sym("REM"), "assumptions") for c in asm for x in subterms(c))
+                ctx.check(rule, fn, bool(ok), "the placeholder tensor 'Zero' resolves to 0 with the assumptions of the remainder",
+                          f"_build_factored_term for the placeholder 'Zero' returns {show(o.value)[:160]}", key=f"zero placeholder {tag}")
+            else:
+                tens = sym("TENSOR0")
+                prods = expand_products(v)
+                ok = len(prods) == 1 and prods[0][0] == 1 and sorted(map(show, prods[0][1])) == sorted(map(show, [sym("REM"), sym("PREF"), tens]))
+                ctx.check(rule, fn, ok, f"tensor named {tag}: factored term = remainder * pref * tensor",
+                          f"_build_factored_term for a tensor named {tag} returns {show(o.value)[:160]} on the path {o.path!r}; only the "
+                          "placeholder 'Zero' of the residuals may be resolved to 0, everything else is remainder * pref * tensor",
+                          key=f"assembly {tag}" if v != 0 else f"zero placeholder {tag}")
+            lg = st["log"]
+            okt = len(lg) >= 1 and all(tuple(k.get("indices", a[0] if a else ())) == IDX and k.get("return_sympy", a[1] if len(a) > 1 else False) is True
+                                       for a, k in lg)
+            ctx.check(rule, fn, okt, "tensor of the factored intermediate on the found indices",
+                      f"_build_factored_term requests the tensor as {lg}", key=f"tensor {tag}")
+    tab = tensor_table(ctx)
+    for name, info in tab.items():
+        builds_zero = info["tensor_name"] == "Zero"
         ctx.check(rule, info["cls"], builds_zero == (info["itmd_type"] == "re_residual"),
                   f"{name}: {'builds' if builds_zero else 'does not build'} the Zero placeholder",
                   f"{name} (type {info['itmd_type']}) {'builds' if builds_zero else 'does not build'} the 'Zero' placeholder; only "
                   "residuals (which vanish for converged amplitudes) may be factored to 0", key=f"zero {name}")
 
 
+DEF_VOCAB = {"expand_itmd", "tensor", "get_symbols", "eri", "fock", "orb_energy", "sort_idx_canonical"}
+
+
+def _abstract_registry(classes):
+    r = {}
+    for cname, cls in classes.items():
+        at = class_attrs(cls)
+        r.setdefault(at.get("_itmd_type"), {})[cname] = Obj(f"intermediates:{cname}", cname, **at)
+    return r
+
+
+def _references(value, names):
+    """calls X.expand_itmd(...) / X.tensor(...) on registered intermediates inside an evaluated definition"""
+    out = []
+    for t in subterms(value):
+        if t.op == "mcall" and t.args[1] in ("expand_itmd", "tensor") and nm(t.args[0]) in names:
+            out.append(t)
+    return out
+
+
 def r11d(ctx):
+    """every definition, evaluated for both expansion levels: the intermediates it is built from are expanded recursively
+    (X.expand_itmd, itself fully expanding) when fully_expand is set and stay tensors (X.tensor) otherwise; both levels
+    are the same formula"""
     rule = "R11d"
-    reg = registry(ctx)
+    classes = registered_classes(ctx)
+    sx = Symex(ctx.model, inline=lambda q: q.split(":")[-1].split(".")[-1] not in DEF_VOCAB, hooks={"get_symbols": get_symbols_model},
+               what="_build_expanded_itmd", max_paths=256)
     n = 0
-    for name, info in reg.items():
-        fn = info["build"]
-        refs = {}
-        for a in walk_fn(fn):
-            if isinstance(a, (ast.Assign, ast.AnnAssign)):
-                t = a.targets[0] if isinstance(a, ast.Assign) else a.target
-                v = a.value
-                if v is not None and "self._registry[" in U(v) and isinstance(t, ast.Name):
-                    refs[t.id] = U(v)
-        for var, src in refs.items():
-            n += 1
-            rebinds = [a for a in walk_fn(fn) if isinstance(a, ast.Assign) and U(a.targets[0]) == var and "self._registry[" not in U(a.value)]
-            if info["itmd_type"] == "re_residual":
-                uses = [c for c in calls_in(fn) if isinstance(c.func, ast.Attribute) and U(c.func.value) == var]
-                ok = not rebinds and uses and all(c.func.attr == "tensor" for c in uses)
-                ctx.check(rule, fn, ok, f"{name}: residual uses {var}.tensor only", f"{name}: residual definitions must reference `{var}` "
-                          "through .tensor", fn=f"intermediates:{name}._build_expanded_itmd", key=f"{name} {var}")
+    for cname, cls in classes.items():
+        fn = ctx.model.fn(f"intermediates:{cname}._build_expanded_itmd")
+        attrs = class_attrs(cls)
+        residual = attrs.get("_itmd_type") == "re_residual"
+        exprs = {}
+        for level in (True, False):
+            outs = sx.run(fn, lambda: dict(self=Obj(f"intermediates:{cname}", "self", _registry=_abstract_registry(classes), **attrs),
+                                           fully_expand=level))
+            rets = [o for o in outs if o.kind == "return"]
+            if not rets or len(rets) != len(outs):
+                ctx.bad(rule, fn, f"{cname}._build_expanded_itmd({level}) does not return on every path: {outs[:3]}",
+                        fn=f"intermediates:{cname}._build_expanded_itmd", key=f"{cname} returns {level}")
                 continue
-            ok = False
-            if len(rebinds) == 1 and U(rebinds[0].value) == f"{var}.expand_itmd if fully_expand else {var}.tensor":
-                ok = True
-            elif len(rebinds) == 2:
-                tab = {}
-                for r in rebinds:
-                    cs = conditions(r)
-                    tab[True if ("fully_expand", True) in cs else False if ("fully_expand", False) in cs else None] = U(r.value)
-                ok = tab == {True: f"{var}.expand_itmd", False: f"{var}.tensor"}
-            ctx.check(rule, fn, ok, f"{name}: `{var}` = expand_itmd if fully_expand else tensor",
-                      f"{name}: referenced intermediate `{var}` is not bound as `{var}.expand_itmd if fully_expand else {var}.tensor` "
-                      f"({[U(r.value) for r in rebinds]}): the expansion level is ignored for it",
-                      fn=f"intermediates:{name}._build_expanded_itmd", key=f"{name} {var}")
-    ctx.floor(rule, "references to other intermediates", n, 30)
+            want = "tensor" if residual or not level else "expand_itmd"
+            refs = {}
+            for o in rets:
+                for t in _references(o.value, classes):
+                    refs.setdefault(nm(t.args[0]), set()).add((t.args[1], args_of(t).get("fully_expand")))
+            for var, uses in sorted(refs.items()):
+                n += 1
+                ok = all(m == want and (m == "tensor" or fe is True) for m, fe in uses)
+                how = sorted(f"{m}" + ("" if fe in (None, True) else f"(fully_expand={fe})") for m, fe in uses)
+                if residual:
+                    ctx.check(rule, fn, ok, f"{cname}({level}): residual uses {var}.tensor only",
+                              f"{cname}: residual definitions must reference `{var}` through .tensor, found {how} for fully_expand={level}",
+                              fn=f"intermediates:{cname}._build_expanded_itmd", key=f"{cname} {var} {level}")
+                else:
+                    ctx.check(rule, fn, ok, f"{cname}(fully_expand={level}): `{var}` enters as {var}.{want}",
+                              f"{cname}: for fully_expand={level} the referenced intermediate `{var}` enters as {how}, expected "
+                              f"{var}.{want}: the expansion level is ignored for it", fn=f"intermediates:{cname}._build_expanded_itmd",
+                              key=f"{cname} {var} {level}")
+            # the defining expression of the level (first field of base_expr), wrappers of the index minimisation removed
+            vals = []
+            for o in rets:
+                v = o.value
+                a = args_of(v) if isinstance(v, T) and v.op == "call" else {}
+                vals.append(a.get("expr", a.get(0)))
+            exprs[level] = vals
+        if residual or True not in exprs or False not in exprs:
+            continue
+
+        def norm(v):
+            def f(x):
+                if x.op == "mcall" and x.args[1] in ("expand_itmd", "tensor") and nm(x.args[0]) in classes:
+                    kw = tuple((k, val) for k, val in x.args[3] if k != "fully_expand")
+                    return T("mcall", x.args[0], "REF", x.args[2], kw)
+                return x
+            from ..terms import rebuild
+            v = strip(v, calls=("Expr",), mcalls=("substitute_contracted",), attrs=("sympy",))
+            return repr(canon(rebuild(v, f)))
+        a, b = {norm(v) for v in exprs[True]}, {norm(v) for v in exprs[False]}
+        ctx.check(rule, fn, a == b and len(a) == 1, f"{cname}: both expansion levels evaluate the same formula",
+                  f"{cname}: the definition for fully_expand=True is not the definition for fully_expand=False with every referenced "
+                  f"intermediate expanded: {sorted(a)[0][:300]} vs {sorted(b)[0][:300]}", fn=f"intermediates:{cname}._build_expanded_itmd",
+                  key=f"{cname} levels")
+    ctx.floor(rule, "references to other intermediates", n, 60)
+
+
+# ---------------------------------------------------------------------------
+# the tensors of the registered intermediates, by evaluation of _build_tensor, of the tensor constructors, of
+# <tensor>.idx and of Obj.longname (nothing is read off the source text)
+
+_TT_CACHE = {}
+SINGLETONS = ("S.Zero", "S.One", "S.NegativeOne")
+
+
+def class_attrs(cls):
+    """literal class attributes (the declared interface of a registered intermediate: _itmd_type, _order, _default_idx)"""
+    out = {}
+    for n in cls.body:
+        tgt, val = (n.target, n.value) if isinstance(n, ast.AnnAssign) else (n.targets[0], n.value) if isinstance(n, ast.Assign) else (None, None)
+        if isinstance(tgt, ast.Name) and val is not None:
+            try:
+                out[tgt.id] = ast.literal_eval(val)
+            except Exception:
+                pass
+    return out
+
+
+def registered_classes(ctx):
+    m = ctx.model.module("intermediates")
+    sx = Symex(ctx.model)
+    out = {}
+    for cname, cls in m.classes.items():
+        if cname != "RegisteredIntermediate" and "RegisteredIntermediate" in sx._bases(f"intermediates:{cname}"):
+            out[cname] = cls
+    if len(out) < 5:
+        raise AnalysisError("no registered intermediates found")
+    return out
+
+
+def tensor_names_model(model, renamed=None):
+    """the TensorNames singleton (configured names; ``renamed`` models a tensor_names.json) and its dataclass fields"""
+    fields = class_attrs(model.cls("tensor_names:TensorNames"))
+    fields = {k: v for k, v in fields.items() if isinstance(v, str)}
+    vals = dict(fields)
+    vals.update(renamed or {})
+    o = Obj("tensor_names:TensorNames", "tensor_names", **vals)
+    flds = []
+    for k, v in fields.items():
+        f = Obj(None, f"field:{k}")
+        f.attrs.update(name=k, default=v)
+        flds.append(f)
+    return o, flds
+
+
+def tensor_index(name):
+    o = mk_index(name)
+    o.attrs.update(_classes=("Index",), dummy_index=0)
+    return o
+
+
+class TensorWorld:
+    """Models of the sympy primitives the tensor constructors use: sympify (numbers -> singletons, names -> symbols),
+    Tuple, the fermion sort (stable sort by the library's own key with the number of transpositions), object creation."""
+
+    def __init__(self, model, renamed=None):
+        self.model = model
+        self.made = {}
+        tn, flds = tensor_names_model(model, renamed)
+        self.hooks = {"tensor_names": tn, "fields": lambda sx, a, kw: flds, "sympify": self.sympify, "Tuple": self.tuple_,
+                      "_sort_anticommuting_fermions": self.sort_fermions, "super": self.super_, "get_symbols": get_symbols_model,
+                      "len": self.len_}
+        self.sx = Symex(model, inline=lambda q: True, hooks=self.hooks, what="tensor construction")
+        self.sx.on_start = self.start
+
+    def start(self, sx):
+        for i, a in enumerate(SINGLETONS):
+            for b in SINGLETONS[i + 1:]:
+                sx.assume(T("cmp", "is", *sorted((sym(a), sym(b)), key=repr)), False)
+
+    @staticmethod
+    def sympify(sx, a, kw):
+        x = a[0]
+        if isinstance(x, bool):
+            return x
+        if isinstance(x, int):
+            from ..symex import Ext
+            return {0: Ext("S.Zero"), 1: Ext("S.One"), -1: Ext("S.NegativeOne")}.get(x, x)
+        if isinstance(x, str):
+            o = Obj(None, f"Symbol({x})")
+            o.attrs.update(name=x)
+            return o
+        return x
+
+    @staticmethod
+    def len_(sx, a, kw):
+        if len(a) == 1 and isinstance(a[0], Obj) and isinstance(a[0].attrs.get("args"), tuple):
+            return len(a[0].attrs["args"])
+        return NotImplemented
+
+    @staticmethod
+    def tuple_(sx, a, kw):
+        o = Obj(None, "Tuple(" + ",".join(nm(x) if isinstance(x, Obj) else str(x) for x in a) + ")")
+        o.attrs.update(args=tuple(a))
+        return o
+
+    @staticmethod
+    def sort_fermions(sx, a, kw):
+        from ..symex import Raised
+        seq = list(a[0])
+        key = kw.get("key")
+        ks = [sx.call_value(key, [x], {}, None) if key is not None else x for x in seq]
+        if any(isinstance(k, T) for k in ks):
+            return NotImplemented
+        if len({repr(k) for k in ks}) != len(ks):
+            raise Raised("ViolationOfPauliPrinciple")
+        order, swaps = list(range(len(seq))), 0
+        for i in range(len(order)):
+            for j in range(len(order) - 1 - i):
+                if ks[order[j]] > ks[order[j + 1]]:
+                    order[j], order[j + 1] = order[j + 1], order[j]
+                    swaps += 1
+        return [seq[i] for i in order], swaps
+
+    def super_(self, sx, a, kw):
+        def new(sx_, args, kw_):
+            cls = args[0]
+            kind = cls.name if isinstance(cls, Obj) else str(cls)
+            o = Obj(f"sympy_objects:{kind}", f"<{kind} #{len(self.made)}>")
+            o.attrs.update(args=tuple(args[1:]), is_number=False)
+            self.made[o.name] = o
+            return o
+        o = Obj(None, "super")
+        o.attrs["__new__"] = new
+        return o
+
+    def construct(self, kind, name, groups, bks):
+        """-> (tensor record, sign) of ``kind(name, *groups[, bks])`` evaluated through the constructor"""
+        r = self.sx.find_method(f"sympy_objects:{kind}", "__new__")
+        if r is None:
+            raise AnalysisError(f"constructor of {kind} not found")
+        fn = r[0]
+        params = [a.arg for a in fn.args.args][2:]
+
+        def args():
+            d = dict(cls=Obj(f"sympy_objects:{kind}", kind), name=name)
+            for p_, g in zip(params, list(groups) + ([bks] if bks is not None else [])):
+                d[p_] = g
+            return d
+        outs = self.sx.run(fn, args)
+        if len(outs) != 1 or outs[0].kind != "return":
+            raise AnalysisError(f"construction of {kind}({name}, {groups}, {bks}) is not deterministic: {outs}")
+        v = outs[0].value
+        if isinstance(v, Obj):
+            return v, 1
+        if isinstance(v, T) and v.op == "mul" and len(v.args) == 2 and v.args[0] == -1 and nm(v.args[1]) in self.made:
+            return self.made[nm(v.args[1])], -1
+        raise AnalysisError(f"construction of {kind}({name}, ...) returns {show(v)[:120]}")
+
+    def read_idx(self, tensor):
+        kind = tensor.cls.split(":")[1]
+        r = self.sx.find_method(tensor.cls, "idx")
+        if r is None:
+            raise AnalysisError(f"{kind}.idx not found")
+        outs = self.sx.run(r[0], lambda: dict(self=tensor))
+        if len(outs) != 1 or outs[0].kind != "return" or isinstance(outs[0].value, T):
+            raise AnalysisError(f"{kind}.idx is not evaluable: {outs}")
+        return tuple(outs[0].value)
+
+    def container(self, tensor):
+        return Obj("expr_container:Obj", "obj", sympy=tensor)
+
+    def longname(self, tensor, use_default_names=True):
+        fn = self.model.fn("expr_container:Obj.longname")
+        outs = self.sx.run(fn, lambda: dict(self=self.container(tensor), use_default_names=use_default_names))
+        if len(outs) != 1:
+            raise AnalysisError(f"Obj.longname is not deterministic for {tensor}: {outs}")
+        return outs[0].value if outs[0].kind == "return" else f"<raises {outs[0].exc}>"
+
+
+def tensor_table(ctx, renamed=None):
+    key = (ctx.model.digest, repr(sorted((renamed or {}).items())))
+    if key in _TT_CACHE:
+        for mname in ("intermediates", "sympy_objects", "expr_container", "tensor_names"):
+            ctx.model.used_modules.add(mname)
+        return _TT_CACHE[key]
+    w = TensorWorld(ctx.model, renamed)
+    ctx.model.module("sympy_objects"), ctx.model.module("expr_container"), ctx.model.module("tensor_names")
+    out = {}
+    for cname, cls in registered_classes(ctx).items():
+        attrs = class_attrs(cls)
+        try:
+            itype, order, didx = attrs["_itmd_type"], attrs["_order"], tuple(attrs["_default_idx"])
+        except KeyError as e:
+            raise AnalysisError(f"{cname}: class attribute {e} not literal")
+        bt = ctx.model.fn(f"intermediates:{cname}._build_tensor")
+        outs = w.sx.run(bt, lambda: dict(self=Obj(f"intermediates:{cname}", "self", **attrs), indices=tuple(tensor_index(x) for x in didx)))
+        if len(outs) != 1 or outs[0].kind != "return" or not (isinstance(outs[0].value, T) and outs[0].value.op == "call"):
+            raise AnalysisError(f"{cname}._build_tensor does not return one tensor: {outs}")
+        a = args_of(outs[0].value)
+        kind = outs[0].value.args[0]
+        name = a.get("name")
+        if not isinstance(name, str):
+            raise AnalysisError(f"{cname}._build_tensor: tensor name is not determined by the configuration: {show(name)}")
+        given = [tuple(nm(x) for x in a[k]) for k in ("upper", "lower", "indices") if k in a]
+        if not given or any(not isinstance(x, str) for g in given for x in g):
+            raise AnalysisError(f"{cname}._build_tensor: index groups not determined: {show(outs[0].value)}")
+        bks = a.get("bra_ket_sym")
+        tensor, sign = w.construct(kind, name, [tuple(tensor_index(x) for x in g) for g in given], bks)
+        built = [tuple(nm(x) for x in g.attrs["args"]) for g in tensor.attrs["args"][1:] if isinstance(g, Obj) and "args" in g.attrs]
+        idx = tuple(nm(x) for x in w.read_idx(tensor))
+        out[cname] = {"cls": cls, "itmd_type": itype, "order": order, "default_idx": didx, "kind": kind, "tensor_name": name,
+                      "given": given, "built": built, "sign": sign, "bra_ket_sym": bks, "idx": idx,
+                      "longname": w.longname(tensor, True), "build_tensor": bt}
+    _TT_CACHE[key] = out
+    return out
+
+
+RENAMED = {"gs_amplitude": "amp", "gs_density": "rho", "eri": "W", "fock": "F"}
 
 
 def r11e(ctx):
     rule = "R11e"
-    reg = registry(ctx)
-    ctx.floor(rule, "registered intermediate classes", len(reg), 25)
-    for name, info in reg.items():
-        if info["tensor_name_literal"] == "Zero":
-            ctx.ok(rule, info["cls"], f"{name}: Zero placeholder (resolved by _build_factored_term)", fn=f"intermediates:{name}", key=f"name {name}")
-            continue
-        ln = info["longname"]
-        ctx.check(rule, info["cls"], ln == name, f"{name}: longname of its tensor is `{ln}`",
-                  f"the tensor built by {name}._build_tensor has the long name `{ln}`; Obj.expand_intermediates looks intermediates up by "
-                  f"that name, so `{name}` is never found (or another definition is used)", fn=f"intermediates:{name}", key=f"name {name}")
-    ln = ctx.model.fn("expr_container:Obj.longname")
-    fs = sorted(U(a.value) for a in walk_fn(ln) if isinstance(a, ast.Assign) and U(a.targets[0]) == "name" and isinstance(a.value, ast.JoinedStr))
-    want = sorted(["f'{base_name}{len(base.upper)}_{ext}'", "f'{base_name}{len(base.upper)}'", "f'u{lr}{n}'", "f'{base_name}0_{ext}_{self.space}'",
-                   "f'{base_name}0_{self.space}'", "f't2eri_{name[5:]}'", "f'd_{self.space}'"])
-    ctx.check(rule, ln, fs == want, "longname formats (t{rank}_{order}, p0_{order}_{space}, t2eri_{n})", f"longname formats {fs}", key="longname formats")
+    n = 0
+    for tag, renamed in (("default names", None), ("renamed tensors", RENAMED)):
+        tab = tensor_table(ctx, renamed)
+        ctx.floor(rule, "registered intermediate classes", len(tab), 25)
+        for name, info in tab.items():
+            if info["tensor_name"] == "Zero":
+                ctx.ok(rule, info["cls"], f"{name}: Zero placeholder (resolved by _build_factored_term)", fn=f"intermediates:{name}",
+                       key=f"name {name} {tag}")
+                continue
+            ln = info["longname"]
+            n += 1
+            ctx.check(rule, info["cls"], ln == name, f"{name}: longname of its tensor `{info['tensor_name']}` is `{ln}` [{tag}]",
+                      f"the tensor `{info['tensor_name']}` built by {name}._build_tensor has the default long name `{ln}` [{tag}]; "
+                      f"Obj.expand_intermediates looks intermediates up by that name, so `{name}` is never found (or another definition "
+                      "is used)", fn=f"intermediates:{name}", key=f"name {name} {tag}")
+    # the registry: flattened by class name; classes registered under their class name
     av = ctx.model.fn("intermediates:Intermediates.__init__")
-    a = [x for x in walk_fn(av) if isinstance(x, (ast.Assign, ast.AnnAssign)) and "_available" in U(x.targets[0] if isinstance(x, ast.Assign) else x.target)]
-    ok = len(a) == 1 and U(a[0].value) == "{name: obj for objects in self._registered.values() for name, obj in objects.items()}"
-    ctx.check(rule, av, ok, "available = all registered classes by class name", "registry flattening changed", key="available")
+    reg = {"t_amplitude": {"t2_1": sym("T21"), "t1_2": sym("T12")}, "mp_density": {"p0_2_oo": sym("P2")}, "empty": {}}
+    me = {}
+
+    def mk_self():
+        me["self"] = Obj("intermediates:Intermediates", "self")
+        return dict(self=me["self"])
+
+    def ri(sx_, a, kw):
+        o = Obj("intermediates:RegisteredIntermediate", "base")
+        o.attrs["_registry"] = {k: dict(v) for k, v in reg.items()}
+        return o
+    sx = Symex(ctx.model, inline=lambda q: True, hooks={"RegisteredIntermediate": ri}, what="Intermediates.__init__")
+    outs = sx.run(av, mk_self)
+    flat = {k: v for d in reg.values() for k, v in d.items()}
+    got = None
+    if len(outs) == 1 and outs[0].kind == "return":
+        fa = Symex(ctx.model, inline=lambda q: True, what="Intermediates.available")
+        o2 = fa.run("intermediates:Intermediates.available", lambda: dict(self=me["self"]))
+        got = o2[0].value if len(o2) == 1 and o2[0].kind == "return" else None
+    ctx.check(rule, av, got == flat, "available = all registered classes by class name",
+              f"Intermediates().available for the registry {reg} is {got}, expected {flat}", key="available")
     isub = ctx.model.fn("intermediates:RegisteredIntermediate.__init_subclass__")
-    st = [x for x in walk_fn(isub) if isinstance(x, ast.Assign) and U(x.targets[0]) == "cls._registry[itmd_type][name]"]
-    ctx.check(rule, isub, len(st) == 1 and U(st[0].value) == "cls()", "classes registered under their class name", "registration changed", key="register")
+    sx = Symex(ctx.model, inline=lambda q: True, what="__init_subclass__")
+    from ..symex import ClassRef
+    outs = sx.run(isub, lambda: dict(cls=ClassRef(ctx.model.module("intermediates"), "t2_1")))
+    c = sym("t2_1")
+    want = T("setitem", T("item", T("attr", c, "_registry"), T("attr", c, "_itmd_type")), T("attr", c, "__name__"), T("call", "t2_1", (), ()))
+    paths = [o for o in outs if o.kind == "return" and any(not pol and a.op == "cmp" and a.args[0] == "in" and
+                                                          a.args[1] == T("attr", c, "__name__") for a, pol in o.path)]
+    ctx.check(rule, isub, bool(paths) and all(want in o.effects for o in paths), "classes registered as an instance under their class name",
+              f"__init_subclass__ of a class that is not registered yet: effects {[o.effects for o in paths]}, expected {show(want)}",
+              key="register")
     from . import c19
-    saved = ctx.per_rule
     c19.r19h(ctx)
+    _r11e_lookup(ctx)
+
+
+def _r11e_lookup(ctx):
+    """Obj.expand_intermediates: the definition is the registry entry under the default long name of the tensor and is
+    expanded on the tensor's own indices in the order the tensor lists them"""
+    rule = "R11e"
     ob = ctx.model.fn("expr_container:Obj.expand_intermediates")
-    lk = [c for c in calls_in(ob) if call_name(c) == "get" and U(c.func.value).endswith(".available")]
-    ctx.check(rule, ob, len(lk) == 1, "definitions looked up in the registry", "lookup changed", key="lookup")
+    calls_seen = []
+
+    def longname(sx_, a, kw):
+        d = kw.get("use_default_names", a[1] if len(a) > 1 else False)
+        return "t9_9" if d is True else "configured_name"
+    itm = Obj(None, "ITMD")
+    other = Obj(None, "OTHER")
+
+    def expand(tag):
+        def f(sx_, a, kw):
+            calls_seen.append((tag, tuple(a), dict(kw)))
+            return sym(f"{tag}.expanded")
+        return f
+    itm.attrs["expand_itmd"] = expand("ITMD")
+    other.attrs["expand_itmd"] = expand("OTHER")
+
+    def intermediates(sx_, a, kw):
+        o = Obj(None, "Intermediates()")
+        o.attrs["available"] = {"t9_9": itm, "configured_name": other}
+        return o
+    idx = tuple(mk_index(x) for x in "ijab")
+    sx = Symex(ctx.model, inline=lambda q: q.split(".")[-1] not in ("longname",), hooks={"longname": longname, "Intermediates": intermediates},
+               what="Obj.expand_intermediates")
+
+    def args():
+        del calls_seen[:]
+        base = Obj("sympy_objects:Amplitude", "tensor")
+        return dict(self=Obj("expr_container:Obj", "obj", base=base, sympy=base, exponent=1, idx=idx, assumptions={}), target=idx,
+                    return_sympy=True, fully_expand=sym("LEVEL"))
+    outs = sx.run(ob, args)
+    ok = len(outs) >= 1 and all(o.kind == "return" for o in outs) and calls_seen and all(c[0] == "ITMD" for c in calls_seen)
+    ctx.check(rule, ob, ok, "definition looked up in the registry under the default long name",
+              f"Obj.expand_intermediates expands {[c[0] for c in calls_seen]} (outcomes {outs[:2]}): the registry is keyed by the default "
+              "long name of the tensor", key="lookup")
+    good = calls_seen and all(tuple(c[2].get("indices", c[1][0] if c[1] else ())) == idx and c[2].get("fully_expand", None) == sym("LEVEL")
+                              for c in calls_seen)
+    ctx.check(rule, ob, bool(good), "expanded on the indices of the tensor in the order it lists them, expansion level forwarded",
+              f"Obj.expand_intermediates calls expand_itmd with {[(c[1], c[2]) for c in calls_seen]}", key="lookup arguments")
 
 
 def r11f(ctx):
     rule = "R11f"
-    reg = registry(ctx)
-    for name, info in reg.items():
+    tab = tensor_table(ctx)
+    for name, info in tab.items():
         d = info["default_idx"]
-        got = info["idx_order"]
-        ctx.check(rule, info["cls"], got is not None and list(got) == list(d), f"{name}: tensor.idx reproduces {tuple(d)}",
-                  f"{name}: Obj.expand_intermediates hands the indices to expand_itmd in the order {got}, but the definition expects "
-                  f"_default_idx order {tuple(d)}", fn=f"intermediates:{name}", key=f"order {name}")
-        for grp in info["groups"]:
-            srt = sorted(grp, key=CANON_KEY)
-            ctx.check(rule, info["cls"], list(grp) == srt, f"{name}: default group {tuple(grp)} already canonical",
-                      f"{name}: default index group {tuple(grp)} is not in canonical order {tuple(srt)}: construction permutes the "
-                      "defaults and the read-back order differs", fn=f"intermediates:{name}", key=f"canonical {name} {''.join(grp)}")
-        if info["bra_ket_sym"] and len(info["groups"]) == 2:
-            up, lo = info["groups"]
-            ctx.check(rule, info["cls"], not need_bra_ket_swap(up, lo), f"{name}: no bra-ket swap for the defaults",
-                      f"{name}: the default upper/lower groups {up}/{lo} are exchanged on construction", fn=f"intermediates:{name}",
-                      key=f"swap {name}")
-        ctx.check(rule, info["cls"], info["partition_ok"], f"{name}: _build_tensor slices partition the indices",
-                  f"{name}: the slices of `indices` in _build_tensor overlap or leave a gap ({info['slices']})", fn=f"intermediates:{name}",
-                  key=f"partition {name}")
+        got = info["idx"]
+        ctx.check(rule, info["cls"], list(got) == list(d), f"{name}: tensor.idx reproduces {tuple(d)}",
+                  f"{name}: Obj.expand_intermediates hands the indices to expand_itmd in the order {got} (read back from the constructed "
+                  f"{info['kind']}), but the definition expects _default_idx order {tuple(d)}", fn=f"intermediates:{name}", key=f"order {name}")
+        ctx.check(rule, info["cls"], info["built"] == info["given"] and info["sign"] == 1,
+                  f"{name}: construction keeps the default index groups {info['given']} and the sign",
+                  f"{name}: the default index groups {info['given']} are stored as {info['built']} with sign {info['sign']}: construction "
+                  "permutes the defaults and the read-back order / sign differs from the definition", fn=f"intermediates:{name}",
+                  key=f"canonical {name}")
+        flat = [x for g in info["given"] for x in g]
+        ctx.check(rule, info["cls"], sorted(flat) == sorted(d) and len(set(flat)) == len(flat), f"{name}: _build_tensor distributes every index once",
+                  f"{name}: _build_tensor builds the tensor on {info['given']}; the indices {tuple(d)} are not used exactly once",
+                  fn=f"intermediates:{name}", key=f"partition {name}")
 
 
 # ---------------------------------------------------------------------------
